@@ -125,14 +125,14 @@ TrMerge == /\ IsEvent("merge")
 
 \* registry events of one document must never hand out one abbreviation for two URIs
 TrNs == /\ l <= Len(Rec) /\ ev.ev \in {"ns_ref", "switch_tns"} /\ l' = l + 1
-        /\ reg' = IF ev.abbr = "null" THEN reg ELSE reg \cup {<<ev.abbr, ev.uri>>}
+        /\ reg' = IF ev.abbr = "null" \/ ev.outcome = "prefix_taken" THEN reg ELSE reg \cup {<<ev.abbr, ev.uri>>}
         /\ IF docs = <<>> \/ (BaseOfUri(ev.uri) = "?" /\ ev.uri \notin WellKnown)
            THEN UNCHANGED <<docs, conf>>        \* a URI outside the vocabulary: not predicted
            ELSE IF ev.ev = "ns_ref"
                 THEN LET wk == ev.uri \in WellKnown
-                         o == AddRefOutcome(TopDoc, ev.prefix, ev.uri, wk)
-                         ns == AddRefNs(TopDoc, ev.prefix, ev.uri, BaseOfUri(ev.uri), wk)
-                     IN /\ docs' = SetTop(AddRef(TopDoc, ev.prefix, ev.uri, BaseOfUri(ev.uri), wk))
+                         o == AddRefOutcomeD(TopDoc, ev.prefix, ev.uri, wk, Dev)
+                         ns == AddRefNsD(TopDoc, ev.prefix, ev.uri, BaseOfUri(ev.uri), wk, Dev)
+                     IN /\ docs' = SetTop(AddRefD(TopDoc, ev.prefix, ev.uri, BaseOfUri(ev.uri), wk, Dev))
                         /\ conf' = (conf /\ o = ev.outcome /\ (ns = None \/ o = "prefix_taken" \/ Label(ns) = ev.abbr))
                 ELSE LET o == SwitchOutcome(TopDoc, ev.uri)
                          d2 == SwitchTns(TopDoc, ev.uri, BaseOfUri(ev.uri), Dev)
